@@ -349,7 +349,7 @@ UfsWindow(s, off, count) ==
       c0 == IF off > total THEN 0 ELSE IF total - off > count THEN count ELSE total - off
       ne == SearchInts(ends, off + c0)
       c1 == IF ne < Len(ends) /\ ends[ne + 1] > off + c0
-            THEN (IF ne > 0 THEN ends[ne] - off ELSE 0)
+            THEN (IF ne > 0 /\ ends[ne] > off THEN ends[ne] - off ELSE 0)
             ELSE c0
   IN IF c1 = 0 /\ off < total /\ total > 0 THEN Err ELSE c1
 
@@ -417,6 +417,25 @@ DirTourNext ==
   \/ \E c \in 0..MaxCount : DReadNext(c)
   \/ \E c \in 0..MaxCount : DReaddir0(c)
 
+(* A Tread at an offset the protocol rule does not allow (not 0, not the previous offset plus the
+   bytes returned): anywhere from 1 to past the end of the listing, inside a record or on a
+   boundary.  The property on directory listings (C15) says nothing about the reply; C06 demands
+   that the server survives it.  Ufs.Read serves it from the snapshot of the last read at offset 0
+   (empty if there was none) and does not change the fid's state. *)
+OffSnap == IF dstate = "new" THEN <<>> ELSE snap
+DReadAt(off, count) ==
+  /\ dstate \in {"new", "open"}
+  /\ off \in 1..(Sum(OffSnap) + 2) /\ (dstate = "open" => off # doff)
+  /\ dlast' = [kind |-> "offrule", off |-> off, count |-> count, n |-> UfsWindow(OffSnap, off, count), snap |-> OffSnap]
+  /\ UNCHANGED <<dirv, snap, doff, dstate, fvars>>
+MaxTotal == MaxEntries * (CHOOSE m \in DSizes : \A z \in DSizes : z <= m)
+DirAnyTourNext ==
+  \/ \E d \in AllDirs : Mk(d)
+  \/ \E c \in {0, MaxCount} : DRead0(c)
+  \/ \E c \in {MaxCount} : DReadNext(c)
+  \/ \E off \in 1..(MaxTotal + 2), c \in 0..MaxCount : DReadAt(off, c)
+DirAnyTourSpec == FileIdle /\ DirInit /\ [][DirAnyTourNext]_vars
+
 DirSpec == FileIdle /\ DirInit /\ [][DirNext]_vars
 DView == <<dirv, snap, doff, dstate>>     \* the tour graph ignores the ghost variable dlast
 DirTourSpec == FileIdle /\ DirInit /\ [][DirTourNext]_vars
@@ -444,6 +463,13 @@ WindowRefines ==
     \A c \in 0..MaxCount :
       /\ UfsWindow(dirv, 0, c) \in Allowed(dirv, 0, c)
       /\ (dstate = "open" /\ doff > 0 => UfsWindow(snap, doff, c) \in Allowed(snap, doff, c))
+(* the slice expressions of the directory branch (fid.dirents[off:off+n] copied into a buffer of
+   `count` bytes) are in bounds for EVERY offset and count, not only those the rule allows *)
+WindowSafe ==
+  dstate \in {"new", "open", "stale"} =>
+    \A off \in 0..(Sum(dirv) + 2), c \in 0..MaxCount :
+      LET r == UfsWindow(dirv, off, c) IN
+        r = Err \/ (r >= 0 /\ r <= c /\ (off > Sum(dirv) \/ off + r <= Sum(dirv)))
 FastAgrees ==
   dstate = "open" =>
     \A c \in 0..MaxCount, r \in (-1)..MaxCount :
